@@ -1076,18 +1076,27 @@ func planC14(prop string, thorough bool, r *simctl.Rand) []RunConfig {
 		_ = wi.Fast
 		c := RunConfig{Prop: prop, Workflow: w, Workers: W, Policy: pol, Stream: st, Chunk: ChunkSpec{Kind: "full"},
 			Fault: FaultSpec{Kind: "none"}, Runners: RunnerSpec{Mode: "real"}, ReadYield: 1, Note: note}
+		// independent draws, so that pairs of conditions coincide now and then
 		if wi.SampleBytes == 2500 && r.Intn(4) == 0 {
 			// the device was healthy during an earlier detection and is stuck now
 			c.Prelude = []PreludeSpec{{Workflow: w, Stream: StreamSpec{Kind: "prf", Seed: r.Uint64()}}}
-		} else if wi.SampleBytes == 2500 && r.Intn(4) == 0 {
+		}
+		if wi.SampleBytes == 2500 && r.Intn(5) == 0 {
 			// another detection of the same kind runs at the same time on a healthy device
 			c.Companion = []PreludeSpec{{Workflow: w, Stream: StreamSpec{Kind: "prf", Seed: r.Uint64()}}}
-		} else if r.Intn(6) == 0 {
+		}
+		if r.Intn(5) == 0 {
 			c.Carrier = []string{"func", "valuestruct", "seeker"}[r.Intn(3)]
-		} else if wi.SampleBytes == 2500 && r.Intn(6) == 0 {
+		}
+		if wi.SampleBytes == 2500 && r.Intn(8) == 0 {
 			// the stuck device also glitches: a short burst of read errors, then it delivers
 			// (its stuck stream) again - still (false, non-nil error)
 			c.Fault = FaultSpec{Kind: []string{"temporary", "custom", "wrapeof"}[r.Intn(3)], At: int64(r.Intn(50000)), Burst: 1 + r.Intn(6)}
+		}
+		if wi.SampleBytes == 2500 && r.Intn(6) == 0 {
+			// ... or goes idle for a while: short reads and a long run of (0, nil) answers
+			c.Chunk = ChunkSpec{Kind: "fixed", K: []int{16, 64, 700}[r.Intn(3)], EmptyRun: []int{5, 100, 250}[r.Intn(3)], EmptyAfter: 1 + r.Intn(3)}
+			c.ReadYield = 9
 		}
 		out = append(out, c)
 	}
